@@ -54,8 +54,8 @@ def well_conditioned(J, name):
 
 
 def gen_case(rng, name, mmax=5, nmax=6, cat=None, boundary=True):
-    for _ in range(200):
-        J, cat_ = A.gen_matrix(rng, cat=cat, mmax=mmax, nmax=nmax)
+    for attempt in range(400):
+        J, cat_ = A.gen_matrix(rng, cat=(cat if attempt < 40 else None), mmax=mmax, nmax=nmax)
         m = len(J)
         p = A.gen_params(rng, name, m)
         if not rows_ok(name, p, m):
